@@ -58,6 +58,8 @@ static pthread_mutex_t fileDownloadMutex = PTHREAD_MUTEX_INITIALIZER;
 static rfbBool fileTransferEnabled = TRUE;
 static rfbBool fileTransferInitted = FALSE;
 static char ftproot[PATH_MAX];
+/* TRUE once SetFtpRoot() has accepted a directory (the user's home or -ftproot) */
+static rfbBool ftprootIsSet = FALSE;
 
 
 /******************************************************************************
@@ -92,6 +94,7 @@ InitFileTransfer()
 	rfbLog("tightvnc-filetransfer/InitFileTransfer\n");
 	
 	memset(ftproot, 0, sizeof(ftproot));
+	ftprootIsSet = FALSE;
 	
 	userHome = GetHomeDir(uid);
 
@@ -156,6 +159,7 @@ SetFtpRoot(char* path)
 	else	
 		memcpy(ftproot, path, strlen(path));	
 
+	ftprootIsSet = TRUE;
 	
 	return TRUE;
 }
@@ -282,7 +286,9 @@ EnableFileTransfer(rfbBool enable)
 rfbBool 
 IsFileTransferEnabled()
 {
-	return fileTransferEnabled;
+	/* without a root directory (no usable home directory, no valid -ftproot)
+	 * ftproot is "" and every path would be taken relative to "/" */
+	return fileTransferEnabled && ftprootIsSet;
 }
 
 
